@@ -102,7 +102,8 @@ def recompute_shape(ctx, r):
     A = ctx.anchors
     bodies = set()
     for w in ctx.world.field_writes:
-        if w.rv["k"] == "use" and w.body.path not in ctx.role_bodies() and "Stats" in w.field[1]:
+        if w.rv["k"] == "use" and w.body.path not in ctx.role_bodies() and "Stats" in w.field[1] and \
+                not c02.is_incremental_update(ctx, w):
             bodies.add(w.body.path)
     for p in sorted(bodies):
         b = prog.bodies[p]
